@@ -34,7 +34,10 @@ Fixpoint remove_first (b : N) (l : list N) : list N :=
   | x :: r => if N.eqb x b then r else x :: remove_first b r
   end.
 
-Inductive fkind := FFail | FMalformed | FOversize | FClose.
+(** [FWrongType]: a well-formed agent message of a type the request does not
+    expect (the x/crypto client panics on it for list and sign requests; the
+    shim's safeAgent wrapper turns that into an error). *)
+Inductive fkind := FFail | FMalformed | FOversize | FClose | FWrongType.
 Record fault := mkFault { f_exec : bool; f_kind : fkind }.
 
 Definition is_close (k : fkind) : bool :=
@@ -110,17 +113,22 @@ Section Script.
       closed connection is an error. *)
   Inductive rawreply := RawCanned (r : N) | RawInjected (k : fkind).
 
-  Definition call_raw (r : N) (u : uagent) : uagent * option rawreply :=
+  Definition call_raw (r : N) (reply_too_large : bool) (u : uagent) : uagent * option rawreply :=
     if negb (alive u) then (u, None)
     else
       let u1 := bump u in
       match script (reqno u) with
-      | None => (log_raw r u1, Some (RawCanned r))
+      | None =>
+          (* a canned reply above the frame bound is refused by the shim after
+             the length prefix; the unread body leaves the stream unusable *)
+          if reply_too_large then (set_alive false (log_raw r u1), None)
+          else (log_raw r u1, Some (RawCanned r))
       | Some ft =>
           let u2 := if f_exec ft then log_raw r u1 else u1 in
           match f_kind ft with
           | FFail => (u2, Some (RawInjected FFail))
           | FMalformed => (u2, Some (RawInjected FMalformed))
+          | FWrongType => (u2, Some (RawInjected FWrongType))
           | FOversize => (u2, None)
           | FClose => (set_alive false u2, None)
           end
